@@ -82,6 +82,29 @@ Record oneshot_state := {
 
 Record seq_state := { ss_cur : option seq_ev; ss_delay : N; ss_tapped : option N; ss_remaining : list seq_ev }.
 
+(* chords v2 (keyberon/src/chord.rs): configuration and state; the functions are in Keyberon/ChordsV2.v *)
+Record chordv2 := mkchord2 {
+  c2_action : action;
+  c2_keys : list N;
+  c2_pending : N;
+  c2_disabled : list N;
+  c2_first_release : bool }.     (* ReleaseBehaviour::OnFirstRelease *)
+
+Inductive ach_status := AUnread | AUnreadReleased | AReleasable | AReleased.
+Record active_chord := mkach {
+  ac_coord : N; ac_remaining : list N; ac_keys : list N; ac_action : action; ac_status : ach_status; ac_delay : N }.
+
+Record chv2 := mkchv2 {
+  cv_chords : list chordv2;            (* configuration: every chord; a key's candidates are those containing it *)
+  cv_queue : list queued;
+  cv_active : list active_chord;       (* heapless Vec, capacity 10 *)
+  cv_ignore : N;                       (* ticks_to_ignore_chord *)
+  cv_cfg_ignore : N;
+  cv_until_change : N;
+  cv_prev_layer : N;
+  cv_prev_qlen : N;
+  cv_next_coord : N }.
+
 Record layout := {
   states : list kstate;
   waiting_ : option waiting;
@@ -95,7 +118,8 @@ Record layout := {
   rpt_action : option action;
   hist_keys : list (N * N);                           (* (keycode, ticks since), most recent first *)
   hist_inputs : list (coord * N);
-  default_layer : N }.
+  default_layer : N;
+  chords2 : option chv2 }.
 
 (* one layer = two rows (real keys, virtual keys); a row is sparse: explicit cells over a default *)
 Inductive rdefault := RDConst (a : action) | RDIdentKey.   (* RDIdentKey: cell y defaults to KeyCode y *)
